@@ -196,8 +196,15 @@ func applyBuilder(r0 *core.Rng, idx int, c *message.IKEPayloadContainer) builder
 		for i := range spis {
 			spis[i] = r.U32()
 		}
-		c.BuildDeletePayload(proto, 4, uint16(n), spis)
-		return builderCase{name: "BuildDeletePayload", expect: abs.Payload{Kind: abs.PDelete, Delete: &abs.Delete{Proto: proto, SPISize: 4, Num: uint16(n), SPIs: append([]uint32{}, spis...)}}}
+		num, size := uint16(n), uint8(4)
+		if (idx/24)%3 == 1 {
+			// count / size arguments that do NOT agree with the list: the payload still holds exactly what was passed
+			// (encoding it is refused later)
+			num = uint16(r.Pick(0, n-1, n+1, n+7, 65535))
+			size = uint8(r.Pick(4, 4, 0, 8))
+		}
+		c.BuildDeletePayload(proto, size, num, spis)
+		return builderCase{name: "BuildDeletePayload", expect: abs.Payload{Kind: abs.PDelete, Delete: &abs.Delete{Proto: proto, SPISize: size, Num: num, SPIs: append([]uint32{}, spis...)}}}
 	case 13:
 		code, id := r.Byte(), r.Byte()
 		pe := c.BuildEAP(eap.EapCode(code), id)
